@@ -1154,7 +1154,9 @@ type apkCache struct {
 func (c *apkCache) get(ctx context.Context, a *APK, pkg InstallablePackage) (*expandapk.APKExpanded, error) {
 	// Key by URL and expected checksum: an expansion that was verified against one
 	// checksum must not be handed to a request that expects another one.
-	u := pkg.URL() + "@" + pkg.ChecksumString()
+	// The two parts are kept apart (a struct, not a joined string): either may contain
+	// any separator, and two different requests must never share a key.
+	u := struct{ url, checksum string }{pkg.URL(), pkg.ChecksumString()}
 	// Do all the expensive things inside the once.
 	once, _ := c.onces.LoadOrStore(u, &sync.Once{})
 	once.(*sync.Once).Do(func() {
@@ -1167,7 +1169,7 @@ func (c *apkCache) get(ctx context.Context, a *APK, pkg InstallablePackage) (*ex
 
 	v, ok := c.resps.Load(u)
 	if !ok {
-		panic(fmt.Errorf("did not see apk %q after writing it", u))
+		panic(fmt.Errorf("did not see apk %q after writing it", u.url))
 	}
 
 	result := v.(apkResult)
